@@ -207,7 +207,13 @@ def expiry(ctx, zone, iface, expires, max_age, delete=False):
         ctx.violation("max-age-unrequested", case, lines[0])
 
 
+SPECIAL_NAMES = ["$Path", "$Domain", "$Port", "$Version", "$x", "path", "Expires", "Max-Age", "secure", "HttpOnly", "SameSite", "domain", "__Host-a", "__Secure-b"]
+
+
 def gen_name(rng, i):
+    if rng.random() < 0.12:
+        # names that are tokens but look like RFC 2965 '$' attributes or like cookie attributes
+        return SPECIAL_NAMES[(i + rng.randrange(len(SPECIAL_NAMES))) % len(SPECIAL_NAMES)] + ("" if rng.random() < 0.7 else str(i))
     return "".join(rng.choice(TOKEN) for _ in range(rng.randrange(1, 8))) + str(i)
 
 
@@ -261,7 +267,10 @@ def run(ctx):
                     v = "".join(chr(rng.randrange(256)) for _ in range(rng.randrange(0, 65)))
                 else:
                     v = "".join(rng.choice(TOKEN) for _ in range(rng.randrange(0, 20)))
-                cookies.append((gen_name(rng, j), v))
+                name = gen_name(rng, j)
+                while any(name == n0 for n0, _ in cookies):
+                    name = gen_name(rng, j)
+                cookies.append((name, v))
             roundtrip(ctx, rng, cookies)
             ctx.case(repr(cookies) if any(classify(v) != "plain" for _, v in cookies) else None)
             if i < 2:
